@@ -470,6 +470,11 @@ def field_sweep_tasks(tier):
         per = 4 if len(c.data) > 2000 else 16
         for a in range(0, len(offs), per):
             tasks.append(("min", ci, offs[a:a + per], vals))
+        if tier == "quick":
+            # palette bytes: just beyond the 6-bit range, the sign bit, all ones
+            pal = [o for o, k in c.smap if k == "pal"]
+            for a in range(0, len(pal), per):
+                tasks.append(("min", ci, pal[a:a + per], (0x40, 0x80, 0xFF)))
     return tasks + struct_sweep_tasks(tier)
 
 
@@ -527,8 +532,14 @@ def real_cli(tool, opts, data, env, tmpdir):
     envv.pop("PYTHONUNBUFFERED", None)
     if env.unbuf:
         envv["PYTHONUNBUFFERED"] = "1"
-    p = subprocess.run([PYTHON, "-m", "coco." + tool] + argv, input=stdin if stdin is not None else b"",
-                       capture_output=True, env=envv, cwd=tmpdir, timeout=300)
+    try:
+        p = subprocess.run([PYTHON, "-m", "coco." + tool] + argv, input=stdin if stdin is not None else b"",
+                           capture_output=True, env=envv, cwd=tmpdir, timeout=120)
+    except subprocess.TimeoutExpired:
+        for q in (inp, outp):
+            if os.path.exists(q):
+                os.remove(q)
+        return None, None, "timeout"
     if env.out_kind == "path":
         out = None
         if os.path.exists(outp):
@@ -561,6 +572,8 @@ def fidelity_chunk(arg):
                 env = envs[i % len(envs)]
                 data = case.data
                 run = simulate(case.tool, case.opts, data, env, boundaries=case.offsets())
+            if run.cls in ("hang", "hang_suspect"):
+                continue                      # never wait for a real process that will not end
             ok, out, rc = real_cli(case.tool, case.opts, data, env, td)
             n += 1
             same = (ok == run.success)
